@@ -70,7 +70,7 @@ def receive_response():
     # Validate the format of the returned JSON
     results = validate_response(results)
 
-    qubit_count = math.log2(len(results[0]))
+    qubit_count = len(results[0]).bit_length() - 1
     if 2**qubit_count != len(results[0]):
         import warnings
 
